@@ -618,7 +618,7 @@ fn run(ctx: &mut Ctx) {
         }
     }
     // seeded random requests
-    let n_random = if ctx.quick() { 9_000 } else { 300_000 };
+    let n_random = if ctx.quick() { 9_000 } else { 120_000 };
     let mut rng = ctx.rng(32);
     for i in 0..n_random {
         let kind = KINDS[i % KINDS.len()];
